@@ -316,8 +316,8 @@ func (w *World) aPeerMatches(ap APeer, other Peer) bool {
 }
 
 func (w *World) aPortsMatch(ports *[]APort, dst Peer, proto string, port int) bool {
-	if ports == nil {
-		return true
+	if ports == nil || len(*ports) == 0 {
+		return true // "If Ports is not set then the rule does not filter traffic via port": an explicitly empty list is not set either
 	}
 	for _, p := range *ports {
 		switch p.Kind {
